@@ -824,6 +824,19 @@ func (vfs *MemFS) Rename(oldpath, newpath string) error {
 		return &os.LinkError{Op: op, Old: oldpath, New: newpath, Err: vfs.err.PermDenied}
 	}
 
+	// The directories may have changed since they were walked without a lock held: both names are looked up again.
+	// (A root directory is its own parent and has no name to look up.)
+	if oChild != node(oParent) && oParent.children[oPI.Part()] != oChild {
+		return &os.LinkError{Op: op, Old: oldpath, New: newpath, Err: vfs.err.NoSuchFile}
+	}
+
+	if nChild != node(nParent) {
+		nChild, nErr = nParent.children[nPI.Part()], vfs.err.NoSuchFile
+		if nChild != nil {
+			nErr = vfs.err.FileExists
+		}
+	}
+
 	if oPI.Path() == nPI.Path() {
 		return nil
 	}
